@@ -190,6 +190,27 @@ pub(crate) mod __verif {
         body(2, 3);
     }
 
+    // @obligation name=cs_intersect_class_string_vs_codepoint props= fn=parse::ClassSet::intersect_operand kind=bounded bound="left: 1 symbolic interval, no strings; operand: nested class with no code points and one symbolic 1-char string (the shape of [[0-9]&&[\\q{2}]]); probe: symbolic 1-char string" min_checks=50 w=3 timeout=1500
+    // Intersection with a nested class treats a 1-character string and the code point as the same member: a code point of the
+    // left side survives iff the nested class has it as a 1-char string (or as a code point), and nothing else appears.
+    #[kani::proof]
+    #[kani::unwind(10)]
+    fn cs_intersect_class_string_vs_codepoint() {
+        let mut cs = ClassSet { codepoints: any_set(1), alternatives: ClassSetAlternativeStrings::new() };
+        let c = cp();
+        let mut alts = ClassSetAlternativeStrings::new();
+        alts.0.push(Box::from([c]));
+        let operand = ClassSetOperand::Class(ClassSet { codepoints: CodePointSet::new(), alternatives: alts });
+        let y = cp();
+        let x = [y];
+        let in_cs = mem(&cs, &x);
+        cs.intersect_operand(operand);
+        assert!(mem(&cs, &x) == (in_cs && y == c), "intersection: member of both (string [c] counts as code point c)");
+        core::mem::forget(cs);
+        kani::cover!(in_cs && y == c);
+        kani::cover!(in_cs && y != c);
+    }
+
     // ---------------------------------------------------------------------------------------------
     // Parser methods on a hand-built Parser value (never through try_parse: the group pre-scan uses a HashMap).
 
